@@ -11,6 +11,8 @@ VERIF=$(dirname "$(dirname "$(readlink -f "$0")")")
 WT=/tmp/sc-$NAME
 OUT=$VERIF/build/seed-evidence/$NAME; mkdir -p "$OUT"
 PKG=$(sed -n 1p "$SD/DEMO.txt"); CMD=$(sed -n 2p "$SD/DEMO.txt")
+PATCH="$SD/patch.diff"
+if ! git -C /repo apply --check "$PATCH" 2>/dev/null && [ -f "$SD/patch.rebased.diff" ]; then PATCH="$SD/patch.rebased.diff"; fi   # the same change carried over a later fix: commit
 res() { echo "$1" | tee -a "$OUT/summary.txt"; }
 : > "$OUT/summary.txt"
 if [ "${SKIP_CONFIRM:-0}" != 1 ]; then
@@ -20,7 +22,7 @@ if [ "${SKIP_CONFIRM:-0}" != 1 ]; then
   cp "$SD/demo_test.go" "$PKG/zz_seed_demo_test.go"
   if (eval "$CMD") >"$OUT/demo_clean.log" 2>&1; then res "demo-on-clean: pass"; else res "demo-on-clean: FAIL (bad seed)"; fi
   rm -f "$PKG/zz_seed_demo_test.go"
-  if ! git apply "$SD/patch.diff"; then res "patch does not apply"; cd /; git -C /repo worktree remove --force "$WT"; exit 2; fi
+  if ! git apply "$PATCH"; then res "patch does not apply"; cd /; git -C /repo worktree remove --force "$WT"; exit 2; fi
   if go build ./... >"$OUT/build.log" 2>&1 && go test -vet=off -count=1 ./... >"$OUT/suite.log" 2>&1; then res "suite-with-change: pass"; else res "suite-with-change: FAIL (bad seed)"; fi
   cp "$SD/demo_test.go" "$PKG/zz_seed_demo_test.go"
   if (eval "$CMD") >"$OUT/demo_seeded.log" 2>&1; then res "demo-with-change: pass (bad seed)"; else res "demo-with-change: fail (as required)"; fi
@@ -29,7 +31,7 @@ fi
 if [ "${IN_REPO:-0}" = 1 ]; then
   # the way the checks are used: the change applied to /repo itself, undone straight afterwards
   [ -n "$(git -C /repo status --porcelain)" ] && { res "/repo not clean, refusing"; exit 2; }
-  git -C /repo apply "$SD/patch.diff" || { res "apply to /repo failed"; exit 2; }
+  git -C /repo apply "$PATCH" || { res "apply to /repo failed"; exit 2; }
   trap 'git -C /repo checkout -- . ' EXIT
   TARGET=/repo; BDIR=$VERIF/build
 else
@@ -37,7 +39,7 @@ else
   TARGET=/tmp/sr-$NAME; BDIR=/tmp/sb-$NAME
   git -C /repo worktree remove --force "$TARGET" >/dev/null 2>&1
   git -C /repo worktree add --detach "$TARGET" HEAD >/dev/null 2>&1 || { res "worktree failed"; exit 2; }
-  git -C "$TARGET" apply "$SD/patch.diff" || { res "apply failed"; exit 2; }
+  git -C "$TARGET" apply "$PATCH" || { res "apply failed"; exit 2; }
   mkdir -p "$BDIR"
   trap 'git -C /repo worktree remove --force "$TARGET"; rm -rf "$BDIR"' EXIT
 fi
